@@ -56,7 +56,11 @@ const (
 	MaxTimeDiff = MaxEpochDiff * time.Second
 
 	// ReplayWindowDuration defines the amount of time during which a salt check is necessary.
-	ReplayWindowDuration = MaxTimeDiff * 2
+	//
+	// Timestamps are compared at whole-second granularity, so a timestamp stays acceptable
+	// for up to (but excluding) 2*MaxTimeDiff + 1s of server time. Salts must be kept at
+	// least that long, or a request could be replayed just before its timestamp expires.
+	ReplayWindowDuration = MaxTimeDiff*2 + time.Second
 
 	// DefaultSlidingWindowFilterSize is the default size of the sliding window filter.
 	DefaultSlidingWindowFilterSize = 256
